@@ -3,7 +3,8 @@
 (* C02 -- TLC as judge of the observation lines written by                 *)
 (* `pathwalk run` (one line per scripted call executed by the probe under  *)
 (* the real ptrace runner):                                                *)
-(*   case   the generated case (PathWalk_Gen)                              *)
+(*   case   the generated case (PathWalk_Gen); case.swap: the exchange of   *)
+(*          two nodes in force while this call was made (dynamic forest)   *)
 (*   seen   consultations the policy handler received while the call was   *)
 (*          trapped: [c (read|write|stat|syscall), in, p, raw]             *)
 (*   truth  per path argument what the kernel itself answered for the same *)
@@ -30,7 +31,7 @@ Agree(m, t) ==
 
 \* everything the reference says about path argument i of the call of line o
 Ref(Cat, o, i) ==
-  LET F    == Cat[o.case.f]
+  LET F    == At(Cat[o.case.f], o.case.swap)      \* the forest as it is at this call
       a    == PathArg(o, i)
       base == BaseOf(F, o.case.cwd, a.d, a.ps)
       mf   == Resolve(F, base, Rel(a.ps), FALSE)
